@@ -428,7 +428,7 @@ PROPS["C12"] = {
          "shards": {"quick": 1, "thorough": 16}},
     ],
     "rule": "rapid histories of 2..20 instructions (Apply, Return, When..Return, Cancel, Reset, calls, a distractor builder) over 3 functions, 2 methods, "
-            "2 methods of one interface variable and one variable, every instruction given through a freshly looked-up handle (Func / Struct.Method / "
+            "2 methods of one interface variable, one variable, one function addressed only by name (ExportFunc.As) and one unexported method (Struct.ExportMethod.As), every instruction given through a freshly looked-up handle (Func / Struct.Method / "
             "Interface.Method.As / Var). Oracle: last-writer-wins reference model (Apply -> callback; Return/When on a live stub configuration extends it, "
             "after an Apply or a Cancel/Reset starts a fresh one); after every instruction every target is called and must behave by its most recent "
             "instruction. Plus a deterministic check that Pkg affects exactly the next lookup. Non-trivial: a history in which some target alternates "
